@@ -107,7 +107,10 @@ Proof.
   assert (PP : forall x, rinput (post_process OR x) = rinput x).
   { intros x. unfold post_process. destruct (sby x) as [m|]; auto. destruct (String.eqb m M_INPUT); auto.
     destruct (pp OR (rxn x)) as [c|]; [|reflexivity]. destruct x; reflexivity. }
-  unfold RowLocal.F. now rewrite V, RB, PP, V, MI, MF, V, RB, V.
+  assert (RS : forall a x, rinput (restore OR a x) = rinput x).
+  { intros a x. assert (Q : forall y, rinput y = rinput (norxn y)) by (intros y; destruct y; reflexivity).
+    rewrite (Q (restore OR a x)), restore_norxn, <- Q. reflexivity. }
+  unfold RowLocal.F, RowLocal.G6. now rewrite V, RS, RB, PP, V, MI, MF, V, RB, V.
 Qed.
 
 (* one completed batch of well-formed rows: one row per input, in order, describing that input *)
